@@ -228,6 +228,9 @@ def gen_case_a(r, idx):
             ops.append("S")
         else:
             ops.append("G")
+    if r.random() < 0.03:
+        # ONE long batch: a single DoGlobalIteration(k) call with k beyond a hundred is still one call - one notification with its k trials
+        ops.insert(r.randrange(len(ops) + 1), "I%d" % r.choice([101, 130, 250]))
     case = {"part": "A", "spec": objectives.gen_spec(r, n), "lower": lo, "upper": hi, "params": params, "masks": masks,
             "ops": ops}
     if r.random() < 0.3:
